@@ -15,6 +15,7 @@
 #include "opentelemetry/sdk/logs/exporter.h"
 #include "opentelemetry/sdk/logs/logger.h"
 #include "opentelemetry/sdk/logs/logger_config.h"
+#include "opentelemetry/sdk/logs/logger_context.h"
 #include "opentelemetry/sdk/logs/logger_provider.h"
 #include "opentelemetry/sdk/logs/read_write_log_record.h"
 #include "opentelemetry/sdk/logs/simple_log_record_processor.h"
@@ -559,6 +560,7 @@ void generate(const std::string &, Rng &wl, Rng &fl, Case &c)
   int nproc            = (int)wl.range(1, 3);
   int layout           = (int)wl.below(1 << nproc);  // bit i: processor i is a batch processor
   c.set("nproc", nproc);
+  c.set("prov_route", wl.chance(0.5) ? 0 : (int64_t)wl.range(1, 3));
   c.set("layout", layout);
   c.set("max_batch", wl.range(1, 4));
   static const int64_t delays[] = {1, 5, 100};
@@ -679,8 +681,37 @@ void body(const Case &c)
         iscope::ScopeConfigurator<sdklogs::LoggerConfig>::Builder(sdklogs::LoggerConfig::Default())
             .AddConditionNameEquals("disabled-lib", sdklogs::LoggerConfig::Disabled())
             .Build());
-    sdklogs::LoggerProvider prov(std::move(procs), Resource::Create({{"service.name", "vsim"}}),
-                                 std::move(cfg));
+    // every public way to the same pipeline: processor list, a single processor, a ready-made
+    // context, processors added after construction
+    std::unique_ptr<sdklogs::LoggerProvider> provp;
+    auto res = Resource::Create({{"service.name", "vsim"}});
+    switch ((int)c.knob("prov_route", 0))
+    {
+      case 1:
+        if (procs.size() == 1)
+        {
+          provp.reset(new sdklogs::LoggerProvider(std::move(procs[0]), res, std::move(cfg)));
+          break;
+        }
+        // fall through
+      case 2: {
+        std::unique_ptr<sdklogs::LoggerContext> cx(
+            new sdklogs::LoggerContext(std::move(procs), res, std::move(cfg)));
+        provp.reset(new sdklogs::LoggerProvider(std::move(cx)));
+        break;
+      }
+      case 3: {
+        std::vector<std::unique_ptr<sdklogs::LogRecordProcessor>> first;
+        first.push_back(std::move(procs[0]));
+        provp.reset(new sdklogs::LoggerProvider(std::move(first), res, std::move(cfg)));
+        for (size_t i = 1; i < procs.size(); ++i)
+          provp->AddProcessor(std::move(procs[i]));
+        break;
+      }
+      default:
+        provp.reset(new sdklogs::LoggerProvider(std::move(procs), res, std::move(cfg)));
+    }
+    sdklogs::LoggerProvider &prov = *provp;
     w.prov     = &prov;
     w.logger   = prov.GetLogger("main", "main-lib", "1.0");
     w.dlogger  = prov.GetLogger("off", "disabled-lib", "1.0");
